@@ -353,9 +353,6 @@ def gen_text_cases(ck, cfg):
               "02000000000000000000000", "zzzzzzzzzzzzz", "1y2p0ij32e8e7", "1y2p0ij32e8e8", "3w5e11264sgsf", "3w5e11264sgsg"]:
         for base in (0, 10, 16, 36):
             texts.add((t, base))
-    for t in ["1", "-1", " 10", "z"]:
-        for base in (1, 37, -1, 64):     # not a base of strtol
-            texts.add((t, base))
     ftexts = ["1e38", "3.4028235e38", "3.4028236e38", "3.40282357e38", "340282356779733661637539395458142568447",
               "340282356779733661637539395458142568448", "1e39", "-1e39", "1e-45", "1.4e-45", "7e-46", "1e-46", "1e-60", "1e308",
               "1.7976931348623157e308", "1.7976931348623158e308", "1.7976931348623159e308", "1.8e308", "1e309", "-1e309", "5e-324",
